@@ -131,8 +131,10 @@ class ExtendedEOF(EOF):
             X_extended.append(X.shift({self.sample_name: -i}))
         X_extended = xr.concat(X_extended, dim="embedding")
         n_samples_cut = (embedding - 1) * tau
+        # Note: slice(None, -0) would select nothing for a single embedding
+        n_samples_kept = X_extended.sizes[self.sample_name] - n_samples_cut
         X_extended = X_extended.isel(
-            {self.sample_name: slice(None, -n_samples_cut)}
+            {self.sample_name: slice(None, n_samples_kept)}
         )
         X_extended.coords.update({"embedding": shift})
 
